@@ -69,7 +69,6 @@ Print Assumptions C01_deadline_is_5s.
    [timed_history h t pre after] is the history the driver's true-deadline cases are judged by. *)
 Theorem C01_late_events_no_effect : forall K addr pre after h b t,
   5000 <= t ->
-  panicked (svc (run K rules_validators (node_wiring addr) pre)) = false ->
   nget h (hs (run K rules_validators (node_wiring addr) pre)) = Some (HInSvc b false) ->
   (exists b0, nget h (calls (svc (run K rules_validators (node_wiring addr) pre))) = Some (PHanded b0)) ->
   let S := run K rules_validators (node_wiring addr) (timed_history h t pre after) in
@@ -77,8 +76,12 @@ Theorem C01_late_events_no_effect : forall K addr pre after h b t,
 Proof. exact (fun K addr => late_events_no_effect K rules_validators (node_wiring addr)). Qed.
 Print Assumptions C01_late_events_no_effect.
 
-(* No history panics the service (C12_at_most_once), so the "nothing happens after a panic" clause of
-   [step] is dead; and no handler reaches the modelled crash of StoreCommitment. *)
+(* No history panics the service, so the "nothing happens after a panic" clause of [step] is dead; and no
+   handler reaches the modelled crash of StoreCommitment. *)
+Theorem C01_never_panicked : forall K V W evs, panicked (svc (run K V W evs)) = false.
+Proof. exact never_panicked. Qed.
+Print Assumptions C01_never_panicked.
+
 Theorem C01_no_panic : forall K addr evs h,
   nget h (hs (run K rules_validators (node_wiring addr) evs)) <> Some (HDone RPanic).
 Proof. exact no_rpanic_node. Qed.
